@@ -797,6 +797,9 @@ def array_specs(tier="quick"):
             out.append(("contracts.leaf", "make_array", (t, e, "write_0")))
             if t not in ("char", "wchar"):
                 out.append(("contracts.leaf", "make_array", (t, e, "read_array_eof")))
+        if t in ("int16", "uint32", "float", "wchar"):
+            # network byte order spelled '!' (every place that branches on the byte order must treat it as big endian)
+            out.append(("contracts.leaf", "make_array", (t, "!", "read_array_n")))
     for t in ["int24", "uint48"]:
         for e in ("<", ">"):
             out.append(("contracts.leaf", "make_array", (t, e, "read_0")))
